@@ -1,6 +1,7 @@
 // C11 (lifetime part): nothing is leaked or destroyed twice when decoding into objects with prior contents,
 // including objects left behind by a failed read.  Serializable lifetime-tracking element TrS.
 //@tu unwind=12 memunwind=60 loop:LogicalBuffer=4 loop:ReadEntries=5
+//@h life_tab : loop:ReadEntries=3 timeout=900
 #include "rd.h"
 #include "tr.h"
 
@@ -37,5 +38,5 @@ static void life_harness() {
 }
 #define LH(tier, name, T, N, M) extern "C" void tier##_life_##name##_m##M##_n##N(void) { life_harness<T, N, M>(); }
 using OptTrS = nop::Optional<TrS>; using VarTrS = nop::Variant<TrS, u8>; using ResTrS = nop::Result<Err, TrS>; using ArrTrS = std::array<TrS, 2>;
-LH(hq, opt, OptTrS, 4, 4) LH(hq, var, VarTrS, 6, 6) LH(hq, res, ResTrS, 4, 4) LH(hq, arr, ArrTrS, 8, 8) LH(hq, lb, LT, 10, 10) LH(hq, tab, TT, 8, 8)
+LH(hq, opt, OptTrS, 4, 4) LH(hq, var, VarTrS, 6, 6) LH(hq, res, ResTrS, 4, 4) LH(hq, arr, ArrTrS, 8, 8) LH(hq, lb, LT, 10, 10) LH(hq, tab, TT, 4, 4) LH(ht, tab, TT, 6, 6)
 LH(ht, opt, OptTrS, 6, 6) LH(ht, var, VarTrS, 8, 4) LH(ht, res, ResTrS, 6, 3) LH(ht, arr, ArrTrS, 10, 5) LH(ht, lb, LT, 12, 6) LH(ht, tab, TT, 12, 10) LH(ht, tab, TT, 10, 12)
